@@ -362,8 +362,13 @@ def run(lines, out, args):
                 from zope.interface import directlyProvides
                 ob_ = ObB()
                 directlyProvides(ob_, ifs[3])
-                u_ = c.queryUtility(st["IB0"], "zz")
-                a_ = c.queryAdapter(ob_, st["IB0"], "zz")
+                if len(f) > 1 and f[1] == "m":
+                    # (a history that only ever asks the many-result queries: the single-result caches stay cold)
+                    u_ = dict(c.getUtilitiesFor(st["IB0"])).get("zz")
+                    a_ = dict(c.getAdapters((ob_,), st["IB0"])).get("zz")
+                else:
+                    u_ = c.queryUtility(st["IB0"], "zz")
+                    a_ = c.queryAdapter(ob_, st["IB0"], "zz")
                 notes = []
                 if getattr(u_, "i", None) != 9001:
                     notes.append("utility of the base not found: %r" % (u_,))
